@@ -342,7 +342,8 @@ def s5_valuation(ctx):
     for p in nps:
         cw = heap_writes(p, 'current_price')
         ctx.require(len(cw) == 1 and cw[0].value == V('market_price'), 'C02.S5', 'update_current_price stores the given price [%s]' % cond_str(p),
-                    cw[0].site if cw else ctx.fn('Position.update_current_price').site(), [fmt(w.value) for w in cw], key='C02.S5|store')
+                    cw[0].site if cw else ctx.fn('Position.update_current_price').site(),
+                    __import__('qsverif.lib', fromlist=['read_marker']).read_marker(ctx, p) + str([fmt(w.value) for w in cw]), key='C02.S5|store')
     ctx.require(len(nps) >= 1, 'C02.S5', 'update_current_price has an accepting path', ctx.fn('Position.update_current_price').site())
     # portfolio-level mark: every accepted mark of a held asset reaches the position with the given price
     qn = 'Portfolio.update_market_value_of_asset'
